@@ -16,25 +16,82 @@ theorem nrun_nil_state (H : Bytes → Bytes) (ops : List Op) : (nrun H .nil ops)
 
 /-- the live machine and the loaded machine make the same observations along a history, as long
     as the iteration fuel covers the height of every intermediate trie -/
-theorem lrun_sim {H : Bytes → Bytes} (hok : HashOK H) (F : Nat) (ops : List Op) :
-    ∀ (lt : LTrie) (t : Node), Sim H lt t →
+theorem lrun_sim {H : Bytes → Bytes} {U : Node → Prop} (hok : HashOK H U) (F : Nat) (ops : List Op) :
+    ∀ (lt : LTrie) (t : Node), Sim H U lt t →
+      (∀ pre, pre <+: ops → U (pre.foldl applyOp t)) →
       (∀ pre, pre <+: ops → 2 * height (pre.foldl applyOp t) + 2 ≤ F) →
       (∀ pre, pre <+: ops → (enc H (pre.foldl applyOp t)).length < 256 ^ 8) →
-      (lrun H F lt ops).2 = (nrun H t ops).2 ∧ Sim H (lrun H F lt ops).1 (nrun H t ops).1 := by
+      (lrun H F lt ops).2 = (nrun H t ops).2 ∧ Sim H U (lrun H F lt ops).1 (nrun H t ops).1 := by
   induction ops with
-  | nil => intro lt t h _ _; exact ⟨rfl, h⟩
+  | nil => intro lt t h _ _ _; exact ⟨rfl, h⟩
   | cons op ops ih =>
-    intro lt t h hF hS
+    intro lt t h hUs hF hS
     obtain ⟨ho, hs⟩ := sim_step hok F h (by simpa using hF [] List.nil_prefix)
-      (by simpa using hS [] List.nil_prefix) op
+      (by simpa using hS [] List.nil_prefix) (by simpa using hUs [] List.nil_prefix) op
     have hst : (nstep H t op).1 = applyOp t op := by cases op <;> rfl
     obtain ⟨ro, rs⟩ := ih _ _ hs (fun pre hp => by
+      have := hUs (op :: pre) (by simpa [List.cons_prefix_cons] using hp)
+      simpa [hst] using this) (fun pre hp => by
       have := hF (op :: pre) (by simpa [List.cons_prefix_cons] using hp)
       simpa [hst] using this) (fun pre hp => by
       have := hS (op :: pre) (by simpa [List.cons_prefix_cons] using hp)
       simpa [hst] using this)
     simp only [lrun, nrun]
     exact ⟨by rw [ho, ro], rs⟩
+
+/-! ### the universe of a history: every node of every intermediate trie -/
+
+mutual
+def subnodes : Node → List Node
+  | .nil => [.nil]
+  | .value b => [.value b]
+  | .short k v => .short k v :: subnodes v
+  | .full cs => .full cs :: subnodesL cs
+def subnodesL : List Node → List Node
+  | [] => []
+  | c :: cs => subnodes c ++ subnodesL cs
+end
+
+theorem self_mem_subnodes (t : Node) : t ∈ subnodes t := by
+  cases t <;> simp [subnodes]
+
+theorem mem_subnodesL {cs : List Node} {x : Node} : x ∈ subnodesL cs ↔ ∃ c ∈ cs, x ∈ subnodes c := by
+  induction cs with
+  | nil => simp [subnodesL]
+  | cons c cs ih => simp [subnodesL, ih]
+
+theorem subnodes_trans (b : Node) : ∀ a x, a ∈ subnodes b → x ∈ subnodes a → x ∈ subnodes b := by
+  induction b using Node.induct with
+  | hnil => intro a x ha hx; simp [subnodes] at ha; subst ha; exact hx
+  | hval v => intro a x ha hx; simp [subnodes] at ha; subst ha; exact hx
+  | hshort k v ih =>
+    intro a x ha hx
+    simp only [subnodes, List.mem_cons] at ha
+    rcases ha with rfl | ha
+    · exact hx
+    · simp only [subnodes, List.mem_cons]; right; exact ih a x ha hx
+  | hfull cs ih =>
+    intro a x ha hx
+    simp only [subnodes, List.mem_cons] at ha
+    rcases ha with rfl | ha
+    · exact hx
+    · obtain ⟨c, hc, hac⟩ := mem_subnodesL.mp ha
+      simp only [subnodes, List.mem_cons]; right
+      exact mem_subnodesL.mpr ⟨c, hc, ih c hc a x hac hx⟩
+
+/-- the nodes that occur in the history: all nodes of all intermediate tries (a finite set) -/
+def Occurs (ops : List Op) (t : Node) : Prop := ∃ pre, pre <+: ops ∧ t ∈ subnodes (run pre)
+
+theorem occurs_run {ops pre : List Op} (h : pre <+: ops) : Occurs ops (run pre) := ⟨pre, h, self_mem_subnodes _⟩
+
+theorem closedU_occurs (ops : List Op) : ClosedU (Occurs ops) := by
+  constructor
+  · rintro k v ⟨pre, hp, hm⟩
+    exact ⟨pre, hp, subnodes_trans _ _ _ hm (by simp [subnodes, self_mem_subnodes])⟩
+  · rintro cs ⟨pre, hp, hm⟩ c hc
+    refine ⟨pre, hp, subnodes_trans _ _ _ hm ?_⟩
+    simp only [subnodes, List.mem_cons]; right
+    exact mem_subnodesL.mpr ⟨c, hc, self_mem_subnodes c⟩
 
 /-! ### a height bound from the key sizes in the history -/
 
